@@ -97,7 +97,7 @@ def main():
         "setup_cmd": "./setup.sh",
         "hooks": {
             "guard": "verif",
-            "enable": "go1.26.8 test -c -tags verif -overlay build/overlay/overlay.json (the overlay adds inert seams to the go1.26.8 runtime and os packages; /repo only gains two new files guarded by //go:build verif)",
+            "enable": "go1.26.8 test -c -tags verif -overlay build/overlay/overlay.json (the overlay adds seams to the go1.26.8 runtime and os packages that are inert until the simulator installs its functions: select poll order, a hook at the start of multi-case selects of synctest-bubble goroutines, goroutine id, file-operation hook; /repo only gains two new files guarded by //go:build verif)",
             "baseline_off_cmd": "cd /repo && go test -mod=mod -json -vet=off -count=1 -timeout 25m ./...",
             "source_commits": hook_commits,
             "add_only": True,
@@ -106,7 +106,7 @@ def main():
                      "kind_free_text": "deterministic simulator: real bluge code inside a testing/synctest bubble, seeded gate scheduler, recording/fault-injecting directory, abstract-index reference model, crash images recovered in a child process"}],
         "checks": checks,
         "not_applicable": na,
-        "notes": "Exit codes of every command: 0 held, 1 VIOLATION line printed, 2 build/harness trouble. ./vcheck selftest is the determinism self-test (same seed, GOMAXPROCS 1/4/16, separate processes, identical event logs).",
+        "notes": "Exit codes of every command: 0 held, 1 VIOLATION line printed, 2 build/harness trouble. ./vcheck selftest is the determinism self-test (same seeds over the profiles of eleven checks, GOMAXPROCS 1/4/16, separate processes, identical event logs); tools/dethash.sh <check> compares two complete sweeps job by job.",
     }
     json.dump(m, open("/verif/MANIFEST.json", "w"), indent=1)
     print("wrote MANIFEST.json:", len(checks), "checks,", len(na), "not applicable")
